@@ -516,17 +516,20 @@ func c04Default(c *Ctx) {
 	rule := "C04/default"
 	load := c.Fn("cmd/rdpgw/config", "Load")
 	found := false
-	eachInstr(load, func(in ssa.Instruction) {
-		mu, ok := in.(*ssa.MapUpdate)
-		if !ok {
-			return
-		}
-		if k, ok := constString(mu.Key); ok && k == "Security.VerifyClientIp" {
-			found = true
-			b, isB := constBool(mu.Value)
-			c.Check(isB && b, rule, "config.Load default Security.VerifyClientIp", mu.Pos(), "default is true", "client address verification no longer defaults to true")
-		}
-	})
+	// the table of defaults, in Load or in a helper Load calls for it
+	for _, sf := range scopeFuncs(load, 1) {
+		eachInstr(sf, func(in ssa.Instruction) {
+			mu, ok := in.(*ssa.MapUpdate)
+			if !ok {
+				return
+			}
+			if k, ok := constString(mu.Key); ok && k == "Security.VerifyClientIp" {
+				found = true
+				b, isB := constBool(mu.Value)
+				c.Check(isB && b, rule, "config.Load default Security.VerifyClientIp", mu.Pos(), "default is true", "client address verification no longer defaults to true")
+			}
+		})
+	}
 	if !found {
 		c.Bad(rule, "config.Load default Security.VerifyClientIp", load.Pos(), "no default for Security.VerifyClientIp: verification is off unless configured")
 	}
